@@ -11,7 +11,9 @@ from .C04 import hull_item, tradeoff_items
 def run_deductive(rep):
     rep.assume("A1", "A2", "A3", "A4", "A5")
     rep.trust("pandas dependency contracts as in C04", "z3", "pyvc symbolic executor")
-    items = [hull_item()] + tradeoff_items("quick")[:2]
+    from ..contracts.to_simple import SimpleConstraints
+    from .C04_more import simple_canaries
+    items = [hull_item()] + tradeoff_items("quick")[:2] + [(SimpleConstraints(), simple_canaries()[1:2] + simple_canaries()[3:])]
     verify.verify_many(rep, items)
     try:
         from . import C05_lemmas
